@@ -354,6 +354,23 @@ class Env:
                         return base.elem
                     if w is not None:
                         return ('STRIDE-MISMATCH', base, w)
+                # end = n ; n -= W ; x[n:end]: the same slice with the upper bound snapshotted before the decrement
+                if isinstance(lo, ast.Name) and isinstance(hi, ast.Name):
+                    snaps = [s_ for s_ in self.f.own_nodes() if isinstance(s_, ast.Assign) and len(s_.targets) == 1
+                             and isinstance(s_.targets[0], ast.Name) and s_.targets[0].id == hi.id
+                             and isinstance(s_.value, ast.Name) and s_.value.id == lo.id and s_.lineno < e.lineno]
+                    decs = [s_ for s_ in self.f.own_nodes() if isinstance(s_, ast.AugAssign) and isinstance(s_.op, ast.Sub)
+                            and isinstance(s_.target, ast.Name) and s_.target.id == lo.id and s_.lineno < e.lineno]
+                    if len(snaps) == 1 and len(decs) == 1 and snaps[0].lineno < decs[0].lineno:
+                        others = [s_ for s_ in self.f.own_nodes() if isinstance(s_, (ast.Assign, ast.AugAssign)) and s_ not in (snaps[0], decs[0])
+                                  and snaps[0].lineno < s_.lineno < e.lineno
+                                  and any(isinstance(t_, ast.Name) and t_.id in (lo.id, hi.id)
+                                          for t_ in (s_.targets if isinstance(s_, ast.Assign) else [s_.target]))]
+                        w = self.const_int(decs[0].value)
+                        if not others and w == len(base.elem):
+                            return base.elem
+                        if not others and w is not None:
+                            return ('STRIDE-MISMATCH', base, w)
                 # x[: k * idx]: a prefix made of whole elements
                 if lo is None and hi is not None and isinstance(hi, ast.BinOp) and isinstance(hi.op, ast.Mult):
                     k = self.const_int(hi.left) if self.const_int(hi.left) is not None else self.const_int(hi.right)
